@@ -245,6 +245,24 @@ CHECKS = {
              "about 1,979 inputs yields a transaction above MAX_BLOCK_SIZE.",
         technique=PROOF_TECH + "; nested loop invariants with lifted sums, intermediate assertion at the signing call, "
                   "exceptional post-condition / frame for the failure paths; bounded companion with the real validators"),
+    'C15': dict(
+        category='proof', design_ref='6/C15',
+        text="Proved from source against the wallet's bookkeeping invariant INV (the unused keys are pairwise distinct, none "
+             "of them carries an annotation, each has a key pair): get_annotated_public_key, while unused keys remain, "
+             "returns the last unused key, which carries no annotation before (was not handed out), annotates it and removes "
+             "it from the unused list, changes no other annotation and re-establishes INV - so by induction over any sequence "
+             "of hand-outs and restores no key is handed out twice while unused keys remain; with none left it returns some "
+             "key of the wallet and records nothing; restore_annotated_public_key removes exactly that annotation, appends "
+             "the key and re-establishes INV. Lemma C15.save-structure (scan of the real save_wallet): only a temporary file "
+             "is opened for writing, inside a `with`, followed by one os.replace onto wallet.json. Bounded (not proof): "
+             "dump/load round trip, hand-out sequences across save/load, balance against the head's unspent outputs, and a "
+             "simulated crash at every open/partial-write/rename boundary of save_wallet.",
+        note="Assumed: os.replace is atomic with respect to process crashes and a file closed by `with` is complete "
+             "(A-RENAME); json.dump/load and hexlify/unhexlify are inverse (A-JSON, exercised by the bounded part); "
+             "random.choice returns an element of its argument. The balance clause depends on C03 coherence and is only "
+             "exercised.",
+        technique=PROOF_TECH + "; data-structure invariant as pre/post-condition of its writers + structural scan + bounded "
+                  "crash-point simulation"),
     'C16': dict(
         category='proof', design_ref='6/C16',
         text="For every height (all integers >= 0, no enumeration): get_block_subsidy equals the documented schedule "
